@@ -709,6 +709,10 @@ def g_catalogue(ctx, rng, i):
                 pass
 
 
+def S_is_coll(x):
+    return _is_tensor(x) and coll_axes(x) > 0
+
+
 def g_constructors(ctx, rng, i):
     """Constructors and alternative constructors handed collections: the element at every position is what the same constructor makes of
     the single arguments at that position; list-valued properties of polygon collections (angles) position by position."""
@@ -765,6 +769,26 @@ def g_constructors(ctx, rng, i):
         ok = all(not isinstance(s, Exception) and np.allclose(res.array[j], s.array, rtol=1e-9, atol=1e-12) for j, s in enumerate(singles))
         ctx.judge("shadow", bool(ok), [A], what="QuadricCollection(normalize_matrix=True): an element is not the normalised matrix of the single constructor", op="QuadricTensor.__init__",
                   feat={"op": "QuadricTensor.__init__", "cshape": [k], "dims": [dim]}, nontrivial=True)
+    # powers of transformation collections with one and two collection axes (exponent 0 included): position by position the power of the element
+    ms = np.stack([gen.invertible_int_matrix(rng, n, 2) for _ in range(6)]).astype(float)
+    for tshape in ((6,), (2, 3), (3, 2), (1, 6)):
+        tc = g.TransformationCollection(ms.reshape(tshape + (n, n)))
+        for ex in (0, 1, 2, -1, np.int64(0)):
+            res = attempt(lambda: tc ** ex)
+            if isinstance(res, Exception):
+                ctx.judge("shadow", False, [ms, list(tshape), int(ex)], what=f"TransformationCollection{tshape} ** {ex} raised {type(res).__name__}: {str(res)[:80]}", op="TransformationTensor.__pow__",
+                          feat={"op": "TransformationTensor.__pow__", "cshape": list(tshape), "exc": type(res).__name__}, nontrivial=True)
+                continue
+            ok = S_is_coll(res) and coll_shape(res) == tshape
+            why = f"result has collection shape {coll_shape(res) if _is_tensor(res) else None}"
+            if ok:
+                for pos in R.positions(tshape, 6):
+                    single = g.Transformation(ms.reshape(tshape + (n, n))[pos]) ** ex
+                    if not _tensor_close(np.asarray(res.array[pos]), np.asarray(single.array), True):
+                        ok, why = False, f"element {pos} is not the power of the element"
+                        break
+            ctx.judge("shadow", bool(ok), [ms, list(tshape), int(ex)], what=f"TransformationCollection{tshape} ** {ex}: {why}", op="TransformationTensor.__pow__",
+                      feat={"op": "TransformationTensor.__pow__", "cshape": list(tshape)}, nontrivial=True)
     # interior angles of a collection of polygons (planar, 2D and 3D) -- modulo pi, as the single polygons report them
     nv = 3 + i % 3
     polys = []
